@@ -250,7 +250,7 @@ def make_layers(spec_layers, modname):
                 ns[hk] = _cls_hook(hk, faults)
             objs[L['n']] = type(L['n'], bases or (object,), ns)
         else:
-            o = InstLayer(L['n'], lmod, bases)
+            o = InstLayer(L.get('rn') or L['n'], lmod, bases)
             for hk in declared:
                 setattr(o, hk, functools.partial(_hook_body, L['n'], hk, faults))
             objs[L['n']] = o
